@@ -10,16 +10,6 @@ pub use rpc_real::{ClnRpc, RpcError};
 
 use crate::node::RpcResult;
 use async_trait::async_trait;
-use cln_rpc::model::{
-    requests::{
-        DatastoreRequest, GetinfoRequest, ListdatastoreRequest, ListsendpaysRequest, PayRequest,
-        WaitsendpayRequest,
-    },
-    responses::{
-        DatastoreResponse, GetinfoResponse, ListdatastoreResponse, ListsendpaysResponse,
-        PayResponse, WaitsendpayResponse,
-    },
-};
 use serde::{de::DeserializeOwned, Serialize};
 use serde_json::Value;
 use std::sync::Arc;
@@ -81,24 +71,9 @@ impl Rpc {
     }
 }
 
-#[async_trait]
-impl ClnRpc for Rpc {
-    async fn datastore(&self, request: &DatastoreRequest) -> Result<DatastoreResponse, RpcError> {
-        self.call("datastore", request).await
-    }
-    async fn get_info(&self) -> Result<GetinfoResponse, RpcError> {
-        self.call("getinfo", &GetinfoRequest {}).await
-    }
-    async fn listdatastore(&self, request: &ListdatastoreRequest) -> Result<ListdatastoreResponse, RpcError> {
-        self.call("listdatastore", request).await
-    }
-    async fn listsendpays(&self, request: &ListsendpaysRequest) -> Result<ListsendpaysResponse, RpcError> {
-        self.call("listsendpays", request).await
-    }
-    async fn pay(&self, request: &PayRequest) -> Result<PayResponse, RpcError> {
-        self.call("pay", request).await
-    }
-    async fn waitsendpay(&self, request: WaitsendpayRequest) -> Result<WaitsendpayResponse, RpcError> {
-        self.call("waitsendpay", &request).await
-    }
-}
+// `impl ClnRpc for Rpc` is generated from the trait declaration in the repo (see ./check)
+#[allow(unused_imports)]
+use cln_rpc::model::requests::*;
+#[allow(unused_imports)]
+use cln_rpc::model::responses::*;
+include!("rpc_impl.rs");
